@@ -20,6 +20,7 @@ import (
 	"github.com/cosmos/cosmos-sdk/x/authz"
 	authtypes "github.com/cosmos/cosmos-sdk/x/auth/types"
 	consensustypes "github.com/cosmos/cosmos-sdk/x/consensus/types"
+	distrtypes "github.com/cosmos/cosmos-sdk/x/distribution/types"
 	govv1 "github.com/cosmos/cosmos-sdk/x/gov/types/v1"
 	upgradetypes "github.com/cosmos/cosmos-sdk/x/upgrade/types"
 	tmproto "github.com/cometbft/cometbft/proto/tendermint/types"
@@ -85,6 +86,7 @@ type MsgSpec struct {
 	Proof  *ProofSpec        `json:"proof,omitempty"`
 	Inner  []MsgSpec         `json:"inner,omitempty"` // authz.Exec
 	Coins  []CoinSpec        `json:"coins,omitempty"`
+	Coins2 []CoinSpec        `json:"coins2,omitempty"` // second amount (gov.SubmitSpend: what the proposal spends; Coins is its deposit)
 	// vesting
 	EndOffsetS int64 `json:"end_s,omitempty"` // vesting end = block time + this
 	Delayed    bool  `json:"delayed,omitempty"`
@@ -340,6 +342,15 @@ func (bc *BuildCtx) Build(s *MsgSpec) sdk.Msg {
 		}
 		proposer, _ := sdk.AccAddressFromBech32(s.f("proposer"))
 		m, err := govv1.NewMsgSubmitProposal([]sdk.Msg{inner}, coins(s.Coins), proposer.String(), s.f("metadata"), "consensus parameters", "change block limits")
+		if err != nil {
+			panic(err)
+		}
+		return m
+	case "gov.SubmitSpend":
+		// a governance proposal that spends from the community pool (to any address, the burn address included)
+		inner := &distrtypes.MsgCommunityPoolSpend{Authority: sdk.AccAddress(authtypes.NewModuleAddress("gov")).String(), Recipient: s.f("recipient"), Amount: coins(s.Coins2)}
+		proposer, _ := sdk.AccAddressFromBech32(s.f("proposer"))
+		m, err := govv1.NewMsgSubmitProposal([]sdk.Msg{inner}, coins(s.Coins), proposer.String(), "", "community pool spend", "spend")
 		if err != nil {
 			panic(err)
 		}
